@@ -22,7 +22,40 @@ def _nt_pure(h):
     return len(h["evs"]) >= 1 and len(h["evs"][0]) >= 4
 
 
+def _nt_sched(h):
+    # non-trivial scheduled history: at least 8 events and at least one observation with a blocked actor (code 2)
+    return len(h["evs"]) >= 8 and any(" 2" in (" " + o) for o in h["obs"])
+
+
+_CSYNC_COQ = ["Common/ListLemmas.v", "CSync/RWModel.v", "CSync/RWProofs.v", "CSync/RWSpec.v", "CSync/MModel.v", "CSync/MProofs.v", "CSync/MSpec.v"]
+_CSYNC_RULE = ("implementation-driven random gate-level histories (Lock/TryLock read+write, one critical section at a time, "
+               "context cancellations, release calls incl. double releases) + corpus; distinct = distinct event sequence; "
+               "non-trivial = >= 8 events and some actor observed blocked")
+_CSYNC_MODELS = [
+    dict(name="rwmutex", pkg="./csyncx", test="TestRWMutex", coq_mod="CSync.RWSpec", run_check="run_check_rwmutex",
+         corpus="rwmutex", quick_n=1500, thorough_n=150000, nontrivial=_nt_sched, rule=_CSYNC_RULE),
+    dict(name="mutex", pkg="./csyncx", test="TestMutex", coq_mod="CSync.MSpec", run_check="run_check_mutex",
+         corpus="mutex", quick_n=1500, thorough_n=150000, nontrivial=_nt_sched, rule=_CSYNC_RULE),
+]
+_SCHED_TRUSTED = [
+    "gate placement: verif-tagged schedule points at Broadcast.HoldLock entry/exit (/repo broadcast/verif_on.go); a critical section is one model step (granularity justified by the lock discipline, C13)",
+    "Go 1.26.8 testing/synctest (fake clock, exact quiescence), goroutine-id parsing in the harness",
+    "modelled, not verified: Go's sync.Mutex, atomic, channel and select semantics; contexts as cancellation flags",
+]
+
 PROPS = {
+    "C01": dict(
+        pid=1, coq=_CSYNC_COQ + ["CSync/Props_C01.v"], props_file="CSync/Props_C01.v", models=_CSYNC_MODELS,
+        trusted=_SCHED_TRUSTED,
+        assumptions=["the harness realises the eager schedule (woken waiters run to their next gate at once); the theorems cover every placement of wake-ups",
+                     "'both select cases ready' is covered by the theorems (CancelWake/Wake are separate events) but not produced by the harness"],
+    ),
+    "C02": dict(
+        pid=2, coq=_CSYNC_COQ + ["CSync/Props_C02.v"], props_file="CSync/Props_C02.v", models=_CSYNC_MODELS,
+        trusted=_SCHED_TRUSTED,
+        assumptions=["liveness stated as quiescence safety: no grantable waiter is blocked in any state without enabled internal steps",
+                     "termination of internal steps is argued, not yet proved, for csync (each section moves an actor forward; only release/give-up sections broadcast)"],
+    ),
     "C19": dict(
         pid=19,
         coq=["Pure/Model.v", "Pure/Spec.v", "Pure/Proofs.v", "Pure/Props_C19.v"],
